@@ -190,13 +190,15 @@ PROPS = {
         'assumptions': ['in-range assignment = fits the field type (text: its encoding fits, no trailing NUL)'],
     },
     'C13': {
-        'source_tie': ['CfgKeyData'],
+        'source_transfer': ['TransferCfg'],
+        'source_tie': ['CfgKeyData', 'CfgItem'],
         'jobs': [{'component': 'key', 'profile': 'codec', 'quick': 750, 'thorough': 5000}],
         'exhaustive_note': 'every published key; size code 0..7 x available value bytes 0..9 x 4 value patterns x reserved bits set/clear',
         'assumptions': ['R2: in-range is relative to the signedness the key table gives the key; R12: size codes 1..5'],
     },
     'C14': {
-        'source_tie': ['CfgKeyData'],
+        'source_transfer': ['TransferCfg'],
+        'source_tie': ['CfgKeyData', 'CfgItem'],
         'jobs': [{'component': 'key', 'profile': 'codec', 'quick': 750, 'thorough': 5000},
                  {'component': 'valset', 'profile': 'valget', 'quick': 450, 'thorough': 3000}],
         'exhaustive_note': 'size code 0..7 x available value bytes 0..9 x 4 value patterns x reserved bits set/clear',
